@@ -7,6 +7,7 @@ import (
 	"crypto/sha256"
 	"encoding/json"
 	"fmt"
+	"go/ast"
 	"go/constant"
 	"go/token"
 	"go/types"
@@ -14,6 +15,7 @@ import (
 	"os"
 	"path/filepath"
 	"sort"
+	"strconv"
 	"strings"
 
 	"golang.org/x/tools/go/packages"
@@ -107,8 +109,14 @@ func loadModel(repo string) (*Model, error) {
 			}
 			m.funcs[name] = f
 			m.fnName[f] = name
+			keys := literalKeys(f)
 			for i, an := range f.AnonFuncs {
 				sub := fmt.Sprintf("%s$%d", strings.TrimPrefix(name, short+"."), i+1)
+				// a function literal stored under a constant string key of a map literal is named by
+				// that key, so that reordering the entries does not re-attach contracts
+				if k, ok := keys[an]; ok {
+					sub = fmt.Sprintf("%s/%s", strings.TrimPrefix(name, short+"."), k)
+				}
 				add(an, sub)
 			}
 		}
@@ -813,4 +821,72 @@ func (m *Model) constTerm(e *Enc, c *ssa.Const) string {
 		return e.strLit(constant.StringVal(c.Value))
 	}
 	return m.zeroOfSort(s, t)
+}
+
+// literalKeys maps the function literals of f that sit (alone) in the value of a `"key": ...` entry of a
+// map composite literal to that key.  Keys used by more than one literal are dropped.
+func literalKeys(f *ssa.Function) map[*ssa.Function]string {
+	out := map[*ssa.Function]string{}
+	if f.Syntax() == nil || len(f.AnonFuncs) == 0 {
+		return out
+	}
+	byLit := map[*ast.FuncLit]*ssa.Function{}
+	for _, an := range f.AnonFuncs {
+		if fl, ok := an.Syntax().(*ast.FuncLit); ok {
+			byLit[fl] = an
+		}
+	}
+	used := map[string]int{}
+	var walk func(n ast.Node, key string)
+	walk = func(n ast.Node, key string) {
+		ast.Inspect(n, func(x ast.Node) bool {
+			switch v := x.(type) {
+			case *ast.KeyValueExpr:
+				if bl, ok := v.Key.(*ast.BasicLit); ok && bl.Kind == token.STRING && key == "" {
+					if k, err := strconv.Unquote(bl.Value); err == nil && isIdentLike(k) {
+						// count the literals directly inside this entry
+						n := 0
+						var only *ast.FuncLit
+						ast.Inspect(v.Value, func(y ast.Node) bool {
+							if fl, ok := y.(*ast.FuncLit); ok {
+								n++
+								only = fl
+								return false
+							}
+							return true
+						})
+						if n == 1 && byLit[only] != nil {
+							out[byLit[only]] = k
+							used[k]++
+						}
+						return false
+					}
+				}
+			case *ast.FuncLit:
+				if v != f.Syntax() {
+					return false
+				}
+			}
+			return true
+		})
+	}
+	walk(f.Syntax(), "")
+	for fn, k := range out {
+		if used[k] > 1 {
+			delete(out, fn)
+		}
+	}
+	return out
+}
+
+func isIdentLike(s string) bool {
+	if s == "" {
+		return false
+	}
+	for _, r := range s {
+		if !(r == '_' || r >= 'a' && r <= 'z' || r >= 'A' && r <= 'Z' || r >= '0' && r <= '9') {
+			return false
+		}
+	}
+	return true
 }
